@@ -763,3 +763,23 @@ fault("c14-service-actions-no-super", "C14", "R14d", (SERVER, "    def server_bi
 twin("c14-twin-service-actions-super", "C14", (SERVER, "    def server_bind(self) -> None:", "    def service_actions(self) -> None:\n        self.ticks = getattr(self, \"ticks\", 0) + 1\n        super().service_actions()\n\n    def server_bind(self) -> None:"))
 fault("c20-gophermap-file-held-by-generator", "C20", "R20c", (GMAP, "        with self.vfs.open(selector, \"rb\") as rfile:\n", "        self.entries = self._lazy(self.vfs.open(selector, \"rb\"))\n        with self.vfs.open(selector, \"rb\") as rfile:\n"),
       (GMAP, "    def isdir(self):\n        return True\n", "    def isdir(self):\n        return True\n\n    def _lazy(self, rfile):\n        with rfile:\n            for raw in rfile:\n                yield raw\n"))
+
+
+# ======================================================================= C09 (gophermap lines, decided by evaluation on representatives)
+fault("c09-relative-link-not-resolved", "C09", "R09a", (GMAP, '                        selector = selectorbase + "/" + selector\n', '                        selector = "/" + selector\n'))
+fault("c09-missing-selector-keeps-type-char", "C09", "R09a", (GMAP, "                        args[1] = args[0][1:]  # Copy display string to selector", "                        args[1] = args[0]  # Copy display string to selector"))
+fault("c09-blank-lines-dropped", "C09", "R09a", (GMAP, "                    line = line.strip()\n                    self.entries.append(", "                    line = line.strip()\n                    if not line:\n                        continue\n                    self.entries.append("))
+fault("c09-hash-lines-are-comments", "C09", "R09a", (GMAP, '                if re.search("\\t", line):  # gophermap link', '                if line.startswith("#"):\n                    continue\n                if re.search("\\t", line):  # gophermap link'))
+fault("c09-port-kept-as-text", "C09", "R09a", (GMAP, "                            entry.port = int(args[3])", "                            entry.port = args[3]"))
+fault("c09-name-keeps-type-char", "C09", "R09a", (GMAP, "                    entry.name = args[0][1:]", "                    entry.name = args[0]"))
+fault("c09-entries-sorted", "C09", "R09a", (GMAP, "    def isdir(self):\n        return True\n", "    def isdir(self):\n        return True\n\n    def _unused(self):\n        pass\n"),
+      (GMAP, "                    self.entries.append(gopherentry.getinfoentry(line, self.config))\n", "                    self.entries.append(gopherentry.getinfoentry(line, self.config))\n        self.entries.reverse()\n"))
+fault("c09-missing-host-filled-in", "C09", "R09a", (GMAP, "                    if len(args) >= 3 and len(args[2]):\n                        entry.host = args[2]\n", "                    if len(args) >= 3 and len(args[2]):\n                        entry.host = args[2]\n                    else:\n                        entry.host = \"localhost\"\n"))
+fault("c09-url-selector-made-relative", "C09", "R09a", (GMAP, 'if selector[0:1] != "/" and selector[0:4] != "URL:":  # Relative link', 'if selector[0:1] != "/":  # Relative link'))
+fault("c09-info-text-keeps-newline", "C09", "R09a", (GMAP, "                    line = line.strip()\n                    self.entries.append(", "                    self.entries.append("))
+fault("c09-getdirlist-copy-sorted", "C09", "R09c", (GMAP, "    def getdirlist(self):\n        return self.entries", "    def getdirlist(self):\n        return sorted(self.entries, key=lambda e: e.getname() or \"\")"))
+fault("c09-infoentry-type", "C09", "R09b", (GE, '    entry.type = "i"\n    return entry', '    entry.type = "0"\n    return entry'))
+twin("c09-twin-tab-test", "C09", (GMAP, 'if re.search("\\t", line):  # gophermap link', 'if "\\t" in line:  # gophermap link'))
+twin("c09-twin-for-loop", "C09", (GMAP, "            while True:\n                line = rfile.readline().decode(errors=\"surrogateescape\")\n                if not line:\n                    break\n",
+     "            for raw in rfile:\n                line = raw.decode(errors=\"surrogateescape\")\n"))
+twin("c09-twin-setters", "C09", (GMAP, "                    entry.type = args[0][0]\n                    entry.name = args[0][1:]\n", "                    entry.settype(args[0][0])\n                    entry.setname(args[0][1:])\n"))
